@@ -447,7 +447,7 @@ def run(ctx):
         qts = sorted(db.GetQuantityTypes(), key=lambda q: -len(db.GetUnits(q)))
         n_pairs = sum(len(db.GetUnits(q)) ** 2 for q in qts)
     shards = [qts[i::48] for i in range(48)]
-    tasks = [("pairs", (s, ctx.thorough)) for s in shards if s] + [("own", None), ("defaults", None), ("posc_defaults", None)] + [("warm", s) for s in shards if s]
+    tasks = [("pairs", (s, ctx.thorough and not worlds.WARM)) for s in shards if s] + [("own", None), ("defaults", None), ("posc_defaults", None)] + [("warm", s) for s in shards if s]
     run_sharded(ctx, _dispatch, tasks)
     c = ctx.part.counters
     ctx.level = "exploration"
